@@ -59,6 +59,12 @@ def generate(rng, cfg: Dict) -> Dict:
         body.insert(c.int(0, len(body)), [c.pick(["gc", "sweep"])])
     if c.chance(0.2):
         body.append(["drop", c.pick(list(classes))])
+    if c.chance(0.3):
+        # an instance is dropped and a new one of the same class is created right away - before any sweep
+        victims = [h for h, k in classes.items() if k not in ("Boss", "Dean")]
+        if victims:
+            h = c.pick(victims)
+            body.insert(c.int(len(classes), len(body)), ["replace", h, classes[h], 50 + h])
     cycles = c.int(3, 6)
     end = c.weighted([(["dropall", "gc", "sweep", "census"], 6), (["dropall", "gc", "gc", "sweep", "census"], 1), (["dropall", "sweep", "gc", "sweep", "census"], 2)])
     return {"property": "C20", "machine": "lifecycle_sim", "salt": c.int(0, 1 << 30), "explicit_domains": explicit_domains, "cycles": cycles, "ops": body, "cycle_end": end}
@@ -232,6 +238,10 @@ def execute(scenario: Dict) -> Dict:
                 world.tie(op[1], op[2])
             elif kind == "drop":
                 world.drop(op[1])
+            elif kind == "replace":
+                if world.drop(op[1]) and op[2] in ALL_CLASSES:
+                    world.create(op[3], op[2], base + op[3])
+                    counters.inc("fault.replaced_before_sweep")
             elif kind == "gc":
                 world.gc()
             elif kind == "sweep":
